@@ -29,7 +29,11 @@ def make_motor(c):
                 maximum_torque=own['tmax'], **kw)
     if c.get('warm'):
         # the motor has already been used at this duty cycle (and another speed) before the parameters are re-expressed
-        m.angular_speed = U.AngularSpeed(0.37 * c['w'][0] + 1.0, c['w'][1])
+        if c.get('warm') == 'same number':
+            # the same number as the speed of interest, in another unit
+            m.angular_speed = U.AngularSpeed(c['w'][0], c['warm_unit'])
+        else:
+            m.angular_speed = U.AngularSpeed(0.37 * c['w'][0] + 1.0, c['w'][1])
         m.pwm = c['D']
         m.compute_torque()
         if c['i0'] is not None:
@@ -199,6 +203,11 @@ def run_C08(ctx):
             if rng.random() < 0.5:
                 c['warm'] = True
                 c['stream'] += ' and first use'
+        elif c.get('stream') != 'boundary' and rng.random() < 0.15:
+            # the same motor object evaluated twice: first at the same *number* in another speed unit
+            c['warm'] = 'same number'
+            c['warm_unit'] = rng.choice([u for u in SI['AngularSpeed'] if u != c['w'][1]])
+            c['stream'] = 're-used motor: same speed number in another unit first'
         cases.append(c)
     # a duty cycle of exactly zero (0, 0.0, -0.0): dead zone with current data, plain T_max(1 - w/w0) without
     for _ in range(ctx.budget(6, 60)):
